@@ -83,6 +83,21 @@ reg("C02", "exploration",
     "when the law is satisfiable for them; allow-list data/c02_magnitude_or_ceil.json.",
     "DESIGN.md 3/C02")
 
+reg("C03", "model_checking",
+    "explicit-state exploration of import / object-creation histories on the real interpreter "
+    "state (fork server), value fingerprints compared with the default history",
+    "State = (module, history). A fork server advances the per-prefix id counters to exact "
+    "levels through the public constructors and forks one child per (module, history); the child "
+    "imports the module (its in-module derivation asserts run) and reports 20-digit values of "
+    "every public equation at a fixed environment keyed by stable names plus calculate_* results. "
+    "Histories: digit-boundary and name-order-class offsets, whole-catalogue alphabetical and "
+    "reverse imports in one process, hash seeds; thorough adds per-module break-point offsets "
+    "computed from the names the module actually uses, single-prefix bumps and dependency-first "
+    "imports. Every explored trace is an implementation trace.",
+    "Abstraction: a history matters only through string order of generated names, hash seed and "
+    "earlier dependency imports; offsets <= 1e5; QTY/SYS/vector counters advanced with next_id.",
+    "DESIGN.md 3/C03")
+
 
 def build() -> dict:
     props = [json.loads(l)["id"] for l in open(os.path.join(ROOT, "properties.jsonl"))]
